@@ -156,6 +156,58 @@ def inst_classes(o, acc=None):
     return acc
 
 
+def class_succ(w, ci):
+    out = set()
+    for f in w["classes"][ci]["fields"]:
+        if f["ty"] is not None:
+            for x in gen.walk_types(f["ty"]):
+                if not isinstance(x, str) and x[0] in ("cls", "td"):
+                    out.add(x[1])
+    return out
+
+
+def td_on_cycle(w, roots):
+    """Is a TypedDict that can reach itself reachable from the given classes?"""
+    seen, todo = set(), list(roots)
+    while todo:
+        c = todo.pop()
+        if c in seen:
+            continue
+        seen.add(c)
+        todo += class_succ(w, c)
+    for c in seen:
+        if w["classes"][c]["kind"] != "td":
+            continue
+        s2, todo = set(), list(class_succ(w, c))
+        while todo:
+            d = todo.pop()
+            if d in s2:
+                continue
+            s2.add(d)
+            todo += class_succ(w, d)
+        if c in s2:
+            return True
+    return False
+
+
+def tuples_as_lists(o):
+    t = o[0]
+    if t in ("l", "t"):
+        return ("l", [tuples_as_lists(x) for x in o[1]])
+    if t in ("S", "F", "q"):
+        return (t, [tuples_as_lists(x) for x in o[1]])
+    if t == "d":
+        return ("d", [(tuples_as_lists(k), tuples_as_lists(v)) for k, v in o[1]])
+    return o
+
+
+@framework.finding("recursive-typeddict-late-binding")
+def f39(case) -> bool:
+    """F39: a TypedDict on a reference cycle is reachable from the type, the converter is a Converter, the output is
+    primitive-only and differs from the documented encoding only in tuples having become lists."""
+    return isinstance(case, dict) and case.get("deviation") == "recursive-td-tuples-as-lists"
+
+
 CFGS = [c for c in ALL_CFGS if c["detailed"]]  # detailed_validation is irrelevant to unstructuring
 
 
@@ -210,8 +262,16 @@ def run(chk: framework.Check):
                         chk.violation("model contradicts theorem C03_primitive (driver/model out of sync): " + sc, case, found_input=False)
                     # ---- oracle on the implementation
                     bad = oracle(w, cfg, ty, x, ri)
+                    roots = {t[1] for t in gen.walk_types(ty) if not isinstance(t, str) and t[0] in ("cls", "td")} | inst_classes(x)
+                    in_f39 = cfg["gen"] and td_on_cycle(w, roots)
                     if bad:
+                        if (in_f39 and ri[0] == "ok" and primitive_only(ri[1]) and terms.canon_sx(tuples_as_lists(ri[1]))
+                                == terms.canon_sx(tuples_as_lists(doc_encode(w, cfg, ty, x)))):
+                            case = dict(case, deviation="recursive-td-tuples-as-lists")
                         chk.violation(f"C03 oracle: {bad} [{cfg_name(cfg)} {terms.ty_sx(ty)} {terms.canon_sx(x)}]", case)
+                        continue
+                    if in_f39:
+                        chk.note("recursive-typeddict(region of F39: model not compared)")
                         continue
                     # ---- correspondence
                     if ri[0] != "ok" or km != "ok" or terms.canon_sx(ri[1]) != reply_canon(rm):
